@@ -234,6 +234,10 @@ func writePointE1(dest []byte, a *pointE1) {
 // read an F_r* element from a byte slice
 // and stores it into a `scalar` type element.
 func readScalarFrStar(a *scalar, src []byte) error {
+	if len(src) != frBytesLen {
+		return invalidInputsErrorf("input length must be %d, got %d",
+			frBytesLen, len(src))
+	}
 	read := C.Fr_star_read_bytes(
 		(*C.Fr)(a),
 		(*C.uchar)(&src[0]),
